@@ -151,7 +151,7 @@ def one(ctx, pts, K, E, t, family, int_dtype=None):
                 ctx.tag('tie:(near-)equidistant-nearest-neighbours(relational)')
                 continue
             ctx.fail('correspondence', 'maeQ/mseQ2 (exact nearest-neighbour matching) vs float', f'evaluation.mae/mse[{s}]', case, dict(sd, model_mae=float(qmae), model_mse=float(qmse)))
-        if np.all(a[:, 0] > 2.0 ** -10) and np.all(a[:, 1] > 2.0 ** -10) and math.isfinite(rmspe):
+        if np.all(np.abs(a) > 2.0 ** -10) and math.isfinite(rmspe):          # either sign: the percentage error divides by the reference coordinate + eps as it is
             if abs(F(rmspe * rmspe) - qrp) > F(1, 10 ** 9) * (abs(qrp) + 1):
                 if has_tie():
                     # two candidates whose distances differ by less than float resolution (e.g. equal byte counts, abscissae a few units apart):
@@ -206,6 +206,10 @@ def run(ctx):
             idxE = [int(np.argmin(np.abs(pts[:, 0] - ex))) for ex in E[:, 0]]
             pts = gen.bytecount_of(pts)
             E, fam = pts[idxE].copy(), fam + '@bytecount'
+        if '@' not in fam and rng.random() < 0.12:
+            # coordinates of BOTH signs (a log-scaled axis, a curve centred on the origin): every score is defined for them
+            sh = np.array([rng.choice([0.0, -0.5 * float(pts[-1, 0] + pts[0, 0])]), -rng.choice([0.5, 0.25, 3.0]) * float(np.max(pts[:, 1]) or 1.0)]) + 2.0 ** -7
+            pts, E, fam = pts + sh, E + sh, fam + '@signed'
         dxx = float(pts[-1, 0] - pts[0, 0])
         if rng.random() < 0.4:
             kx = pts[K][:, 0]
